@@ -35,6 +35,9 @@ pub struct Case {
     /// then usually extends past an unaligned EOF
     #[serde(default)]
     pub sparse: Vec<(u16, u16)>,
+    /// library options: bit0 no_clobber, bit1 fsync, bit2 no_perms, bit3 no_timestamps, bits4-5 backup (1 numbered, 2 auto)
+    #[serde(default)]
+    pub lib_opts: u8,
 }
 
 fn base_strategy() -> BoxedStrategy<c02::Case> {
@@ -61,8 +64,9 @@ pub fn strategy() -> BoxedStrategy<Case> {
         prop_oneof![6 => Just(0u8), 1 => Just(1u8), 1 => Just(2u8), 1 => Just(3u8), 1 => Just(4u8), 1 => Just(5u8)],
         0u8..6,
         prop::collection::vec((1u16..400, 1u16..9000), 0..3),
+        prop_oneof![3 => Just(0u8), 1 => Just(1u8), 2 => 0u8..48],
     )
-        .prop_map(|(base, updater, parblock, workers, block, sup, fault, fault_k, sparse)| Case { base, updater, parblock, workers, block, sup, fault, fault_k, sparse })
+        .prop_map(|(base, updater, parblock, workers, block, sup, fault, fault_k, sparse, lib_opts)| Case { base, updater, parblock, workers, block, sup, fault, fault_k, sparse, lib_opts })
         .boxed()
 }
 
@@ -108,6 +112,7 @@ pub fn judge(c: &Case, rec: &mut Rec) -> Verdict {
     let updater = ["record", "channel", "noop"][c.updater as usize % 3];
     let supervised = c.sup.is_some();
     let marker = sb.out.join("xv-marker");
+    let backup_name = ["", "numbered", "auto", ""][(c.lib_opts >> 4) as usize & 3];
     let cfg = json!({
         "driver": if c.parblock { "parblock" } else { "parfile" },
         "sources": inv.sources.iter().map(|s| String::from_utf8_lossy(s).to_string()).collect::<Vec<_>>(),
@@ -115,6 +120,11 @@ pub fn judge(c: &Case, rec: &mut Rec) -> Verdict {
         "workers": c.workers,
         "block_size": c.block,
         "updater": updater,
+        "no_clobber": c.lib_opts & 1 != 0,
+        "fsync": c.lib_opts & 2 != 0,
+        "no_perms": c.lib_opts & 4 != 0,
+        "no_timestamps": c.lib_opts & 8 != 0,
+        "backup": backup_name,
         "marker": if supervised { Some(marker.display().to_string()) } else { None },
         "drain_timeout_ms": 15000,
     });
@@ -192,6 +202,9 @@ pub fn judge(c: &Case, rec: &mut Rec) -> Verdict {
         ok
     );
     let new = rec.class(key);
+    if c.lib_opts & 1 != 0 {
+        rec.class(format!("no_clobber|{}|{}|collision={}", driver, updater, mapped.iter().any(|m| m.kind != K::D && pre.contains_key(&m.dst))));
+    }
     if (ncopied >= 2 && copied_threads.len() >= 2) || fired > 0 || !ok || has_error_update {
         rec.nontrivial(case_hash(c));
     }
@@ -269,7 +282,8 @@ pub fn judge(c: &Case, rec: &mut Rec) -> Verdict {
             Ok(s) => s,
             Err(e) => return Verdict::Inconclusive(format!("snapshot: {e}")),
         };
-        let diffs = model::compare_success(&pre, &post, &mapped, &model::CmpOpts::default());
+        let o = model::CmpOpts { allow_new: if (c.lib_opts >> 4) & 3 != 0 { Some(super::c04::is_backup_name) } else { None }, ..model::CmpOpts::default() };
+        let diffs = model::compare_success(&pre, &post, &mapped, &o);
         if !diffs.is_empty() {
             return Verdict::faild(
                 format!("C12|{}|{}|incomplete-without-error", driver, updater),
@@ -320,6 +334,6 @@ impl Check for C12 {
         }
     }
     fn required_classes(&self, _tier: Tier) -> Vec<String> {
-        ["|record|", "|channel|", "|noop|", "parblock|", "parfile|", "multiblock", "supervised", "fault1", "fault5", "ok=false", "supervised|sparse=true"].iter().map(|s| s.to_string()).collect()
+        ["|record|", "|channel|", "|noop|", "parblock|", "parfile|", "multiblock", "supervised", "fault1", "fault5", "ok=false", "supervised|sparse=true", "no_clobber|parfile|noop|collision=true", "no_clobber|parblock|record|collision=true"].iter().map(|s| s.to_string()).collect()
     }
 }
